@@ -117,7 +117,13 @@ func (s *Service) lastPruned(ctx context.Context) (*header.ExtendedHeader, error
 		return s.hstore.GetByHeight(ctx, lastPruned)
 	}
 
-	s.checkpoint.LastPrunedHeight = tail.Height()
+	if tail.Height() > lastPruned {
+		// the header store's tail moved past the checkpoint: everything below the tail is gone
+		// together with its headers, but the block at the tail itself has not been pruned yet.
+		// Keep the checkpoint right below it, so that findPruneableHeaders includes the tail
+		// and pruneOnHeaderDelete does not skip it.
+		s.checkpoint.LastPrunedHeight = tail.Height() - 1
+	}
 	for height := range s.checkpoint.FailedHeaders {
 		if height < tail.Height() {
 			delete(s.checkpoint.FailedHeaders, height)
